@@ -18,7 +18,7 @@ PROP = dict(
           "(then nothing may follow the response), optionally with 'Expect: 100-continue' (with a Content-Length, chunked, or Content-Length: 0; the body "
           "is sent after the interim 100 Continue or after 3 s; any other status before the body is a failure) or several requests one after the other on a kept-alive connection (then no byte may follow a "
           "response). The chunked/fragmented RESPONSE direction and the bytes the library client emits are checked with an independent reference "
-          "server answering the library client. Enumerated: every body length 0..2048 in both directions for 3 client kinds; +-8 around 16000, "
+          "server answering the library client. Truncated requests: chunked requests of 2-5 chunks and Content-Length requests are cut after EVERY byte and the sending side is closed: the handler must be called with the complete body or not at all. A body set twice on the same message (first setter ByteArray / String / const char* / Var / File / serveFile(), then the real one; every ordered pair, on responses and on Http::request requests): what travels is what was set last. Enumerated: every body length 0..2048 in both directions for 3 client kinds; +-8 around 16000, "
           "16382, 32000, 65536, 128000, 144000, 256000 and sampled lengths up to 300 KiB, 1 MiB (thorough: EVERY length 0..300 KiB split over the "
           "workers, 1/2/4/8 MiB); EVERY range [b,e] of an 18-byte file (thorough also 1,2,3,33 bytes) through Http::get, Http::download and the raw "
           "client on one kept-alive connection. rapidcheck parts: general exchanges (methods GET/POST/PUT/PATCH/DELETE/custom tokens, paths with "
